@@ -2647,6 +2647,7 @@ ppl_io_asprint_variable(char** strp, ppl_dimension_type var) try {
   }
   *strp = strdup(f);
   if (*strp == nullptr) {
+    notify_error(PPL_ERROR_OUT_OF_MEMORY, "strdup() failed");
     return PPL_ERROR_OUT_OF_MEMORY;
   }
   return 0;
